@@ -591,6 +591,131 @@ fn pipe_nested(args: &[i128]) -> Result<String, String> {
     }))
 }
 
+/// pipe_agg2 [nparts, builder, op, n, (key, v, part)*, delay_ms * nparts]: items are `(key, v)` pairs produced by
+/// `nparts` source replicas (item j by replica part_j, replica id starts after delay_id ms). builder: 0 `fold`,
+/// 1 `fold_assoc`, 2 `reduce`, 3 `reduce_assoc` (all four over the values), 4 `group_by_fold`, 5 `group_by_reduce`,
+/// 6 `group_by_sum`, 7 `group_by_count`, 8 `group_by_min_element`, 9 `group_by_max_element`, 10 `group_by(k).fold`,
+/// 11 `group_by(k).reduce` (keyed by `key`). Output: the value (0..3) or sorted `key:value`.
+fn pipe_agg2(args: &[i128]) -> Result<String, String> {
+    let mut a = Args::new("pipe_agg2", args);
+    let nparts = a.ranged("nparts", 1, MAX_PAR)? as u64;
+    let builder = a.ranged("builder", 0, 11)? as u8;
+    let op = a.ranged("op", 0, 2)? as u8;
+    let n = a.ranged("n", 0, MAX_ITEMS)? as usize;
+    let mut parts: Vec<Vec<Kv>> = vec![Vec::new(); nparts as usize];
+    for _ in 0..n {
+        let k = a.u64("key")?;
+        let v = a.u64("v")?;
+        let p = a.ranged("part", 0, nparts as i128 - 1)? as usize;
+        parts[p].push((k, v));
+    }
+    let mut delays: Vec<u64> = Vec::new();
+    for _ in 0..nparts {
+        delays.push(a.ranged("delay_ms", 0, 5000)? as u64);
+    }
+    a.end()?;
+    Ok(supervised(move || {
+        let env = context(nparts);
+        let source = env.stream_par_iter(move |id: u64, _n: u64| {
+            let items = parts[id as usize].clone();
+            let d = delays[id as usize];
+            std::iter::once(()).flat_map(move |_| {
+                if d > 0 {
+                    std::thread::sleep(std::time::Duration::from_millis(d));
+                }
+                items.clone().into_iter()
+            })
+        });
+        let f = move |x: u64, y: u64| agg_op(op, x, y);
+        let f_mut = move |acc: &mut u64, y: u64| *acc = agg_op(op, *acc, y);
+        let glob = |out: Option<Vec<u64>>| match sorted(out) {
+            Ok(v) => fmt_list(&v),
+            Err(e) => e,
+        };
+        match builder {
+            0 => {
+                let out = source.map(|x: Kv| x.1).fold(0u64, f_mut).collect_vec();
+                env.execute_blocking();
+                glob(out.get())
+            }
+            1 => {
+                let out = source.map(|x: Kv| x.1).fold_assoc(0u64, f_mut, f_mut).collect_vec();
+                env.execute_blocking();
+                glob(out.get())
+            }
+            2 => {
+                let out = source.map(|x: Kv| x.1).reduce(f).collect_vec();
+                env.execute_blocking();
+                glob(out.get())
+            }
+            3 => {
+                let out = source.map(|x: Kv| x.1).reduce_assoc(f).collect_vec();
+                env.execute_blocking();
+                glob(out.get())
+            }
+            4 => {
+                let out = source
+                    .group_by_fold(
+                        |x: &Kv| x.0,
+                        0u64,
+                        move |acc: &mut u64, x: Kv| *acc = agg_op(op, *acc, x.1),
+                        f_mut,
+                    )
+                    .collect_vec();
+                env.execute_blocking();
+                fmt_kv(out.get())
+            }
+            5 => {
+                let out = source
+                    .group_by_reduce(|x: &Kv| x.0, move |acc: &mut Kv, x: Kv| acc.1 = agg_op(op, acc.1, x.1))
+                    .collect_vec();
+                env.execute_blocking();
+                fmt_kv(out.get().map(|v| v.into_iter().map(|(k, x)| (k, x.1)).collect()))
+            }
+            6 => {
+                let out = source.group_by_sum(|x: &Kv| x.0, |x: Kv| x.1).collect_vec();
+                env.execute_blocking();
+                fmt_kv(out.get())
+            }
+            7 => {
+                let out = source.group_by_count(|x: &Kv| x.0).collect_vec();
+                env.execute_blocking();
+                fmt_kv(out.get().map(|v| v.into_iter().map(|(k, c)| (k, c as u64)).collect()))
+            }
+            8 => {
+                let out = source
+                    .group_by_min_element(|x: &Kv| x.0, |x: &Kv| x.1)
+                    .collect_vec();
+                env.execute_blocking();
+                fmt_kv(out.get().map(|v| v.into_iter().map(|(k, x)| (k, x.1)).collect()))
+            }
+            9 => {
+                let out = source
+                    .group_by_max_element(|x: &Kv| x.0, |x: &Kv| x.1)
+                    .collect_vec();
+                env.execute_blocking();
+                fmt_kv(out.get().map(|v| v.into_iter().map(|(k, x)| (k, x.1)).collect()))
+            }
+            10 => {
+                let out = source
+                    .group_by(|x: &Kv| x.0)
+                    .fold(0u64, move |acc: &mut u64, x: Kv| *acc = agg_op(op, *acc, x.1))
+                    .collect_vec();
+                env.execute_blocking();
+                fmt_kv(out.get())
+            }
+            _ => {
+                let out = source
+                    .group_by(|x: &Kv| x.0)
+                    .reduce(move |acc: &mut Kv, x: Kv| acc.1 = agg_op(op, acc.1, x.1))
+                    .collect_vec();
+                env.execute_blocking();
+                fmt_kv(out.get().map(|v| v.into_iter().map(|(k, x)| (k, x.1)).collect()))
+            }
+        }
+    }))
+}
+
 // ---------------------------------------------------------------------------- connection kinds (C03)
 
 type Kv = (u64, u64);
@@ -714,6 +839,7 @@ pub fn verif_replay_pipe(name: &str, args: &[i128]) -> Option<String> {
         "pipe_iterate" => pipe_iterate(args),
         "pipe_wiring" => pipe_wiring(args),
         "pipe_nested" => pipe_nested(args),
+        "pipe_agg2" => pipe_agg2(args),
         _ => return None,
     };
     Some(match r {
